@@ -191,6 +191,10 @@ class PieceContract(Contract):
         L = self.L
         o, a, kw, newobs = st
         if exc is not None:
+            if type(exc).__name__ == 'StepBudgetExceeded':
+                # not judged here (C09/C10 do); counted so that the shard stops generating after a few of them
+                ctx.extra['n_budget_violations'] = ctx.extra.get('n_budget_violations', 0) + 1
+                ctx.grey('call-ran-into-step-budget')
             return
         esc = O.has_esc(o.text)
         name = call.name
